@@ -37,10 +37,13 @@ class Contract:
     hints: List[str] = dataclasses.field(default_factory=list)      # ground terms made available to matching
     note: str = ""
     trusted: bool = False         # contract assumed, body not verified (external / out of subset)
+    mode: str = "proof"           # "proof" (engine A) or "bounded" (engine C only; never counted as proved)
     cls: Optional[str] = None     # for methods: class name (self.* treated as parameters)
     sentence: Dict[str, str] = dataclasses.field(default_factory=dict)  # ensures -> property sentence
     timeout_ms: int = 20000
     known: List[dict] = dataclasses.field(default_factory=list)  # known-finding splits: {"id","pred","ensures_idx"}
+    gen: Optional[Callable] = None          # engine C: gen(rng, tier) -> iterator of kwargs dicts
+    nontrivial: Optional[Callable] = None   # engine C: which generated inputs count as non-trivial
 
     @property
     def module(self):
